@@ -18,7 +18,10 @@ use emmylua_code_analysis::{
     read_file_with_encoding, uri_to_file_path,
 };
 use lsp_types::Uri;
+#[cfg(not(feature = "verif-hooks"))]
 use tokio::sync::{Mutex as AsyncMutex, RwLock};
+#[cfg(feature = "verif-hooks")]
+use crate::verif::{Mutex as AsyncMutex, RwLock};
 use tokio_util::sync::CancellationToken;
 
 pub struct WorkspaceManager {
@@ -98,6 +101,14 @@ impl WorkspaceManager {
     pub fn close_open_file(&mut self, uri: &Uri) {
         self.open_file_texts.remove(uri);
         self.open_file_state_version = self.open_file_state_version.wrapping_add(1);
+    }
+
+    #[cfg(feature = "verif-hooks")]
+    pub fn verif_open_file_texts(&self) -> Vec<(Uri, String)> {
+        self.open_file_texts
+            .iter()
+            .map(|(uri, text)| (uri.clone(), text.clone()))
+            .collect()
     }
 
     pub fn is_open_file(&self, uri: &Uri) -> bool {
